@@ -60,6 +60,29 @@ class Status(object):
         return lambda *a, **kw: None
 
 
+def _mk_errors():
+    from twisted.internet import error as tie
+    from foolscap.api import DeadReferenceError, RemoteException
+    from twisted.python.failure import Failure
+
+    def remote():
+        try:
+            raise ValueError("server-side error")
+        except ValueError:
+            return RemoteException(Failure())
+    out = [lambda: RuntimeError("boom"), lambda: DeadReferenceError("gone"), remote, lambda: tie.ConnectionLost("lost"),
+           lambda: tie.ConnectionDone("done"), lambda: tie.TimeoutError("timeout"), lambda: OSError(28, "No space left on device")]
+    try:
+        from allmydata.storage.http_client import ClientException
+        out.append(lambda: ClientException(500, "Internal Server Error", b""))
+    except Exception:
+        pass
+    return out
+
+
+_WRITE_ERRORS = _mk_errors()
+
+
 def drive_unit(k, writers, answers):
     """Run the real bookkeeping methods; returns (outcome, placed set of (shnum, server index))."""
     from twisted.internet import defer
@@ -100,8 +123,14 @@ def drive_unit(k, writers, answers):
     try:
         for w, a in answers:
             if a[0] == "err":
-                p._connection_problem(Failure(RuntimeError("boom")), w)
-                p._got_write_answer(None, w, 0.0)
+                # wired as Publish.finish_publishing wires every writer: errback _connection_problem, then callback
+                # _got_write_answer, the whole thing one member of a DeferredList that swallows what is left over.  The
+                # failure is any of the errors a write request can end with, not only foolscap's two
+                exc = _WRITE_ERRORS[(len(str(a)) + w.shnum + 7 * w.server.i) % len(_WRITE_ERRORS)]() if len(a) == 1 else a[1]
+                d = defer.fail(Failure(exc))
+                d.addErrback(p._connection_problem, w)
+                d.addCallback(p._got_write_answer, w, 0.0)
+                d.addErrback(lambda f: None)
             else:
                 _, wrote, rd = a
                 p._got_write_answer((wrote, dict((sh, [cs]) for sh, cs in rd)), w, 0.0)
